@@ -293,10 +293,12 @@ pub enum ROp {
     WalkLookup,
     /// recursive listing: read_root_storage(), and read_storage() of every storage it yields, inside the loop
     Recursive,
+    /// walk_storage on a storage two levels down
+    WalkDeep,
 }
 
 pub const ALL_WOPS: [WOp; 7] = [WOp::WriteSmall, WOp::WriteLarge, WOp::Shrink, WOp::Grow, WOp::ReadSome, WOp::Overflow, WOp::FailingSetLen];
-pub const ALL_ROPS: [ROp; 11] = [ROp::Entry, ROp::Exists, ROp::IsStream, ROp::IsStorage, ROp::RootEntry, ROp::ReadStorage, ROp::ReadRoot, ROp::Walk, ROp::WalkStorage, ROp::WalkLookup, ROp::Recursive];
+pub const ALL_ROPS: [ROp; 12] = [ROp::Entry, ROp::Exists, ROp::IsStream, ROp::IsStorage, ROp::RootEntry, ROp::ReadStorage, ROp::ReadRoot, ROp::Walk, ROp::WalkStorage, ROp::WalkLookup, ROp::Recursive, ROp::WalkDeep];
 
 #[derive(Clone, Debug, Serialize, Deserialize)]
 pub struct SchedCase {
@@ -325,7 +327,10 @@ fn base_image(version: u16) -> Vec<u8> {
     live.comp.create_storage("/d").unwrap();
     live.comp.set_created_time("/d", ts).unwrap();
     live.comp.set_modified_time("/d", ts).unwrap();
-    for (p, n) in [("/s1", 300usize), ("/s2", 6000), ("/d/x", 10), ("/a", 0), ("/zz", 70), ("/bad", 70)] {
+    live.comp.create_storage("/d/e").unwrap();
+    live.comp.set_created_time("/d/e", ts).unwrap();
+    live.comp.set_modified_time("/d/e", ts).unwrap();
+    for (p, n) in [("/d/e/y", 20usize), ("/s1", 300usize), ("/s2", 6000), ("/d/x", 10), ("/a", 0), ("/zz", 70), ("/bad", 70)] {
         let mut s = live.comp.create_stream(p).unwrap();
         s.write_all(&ops::pattern(n as u64, n)).unwrap();
         s.flush().unwrap();
@@ -363,6 +368,10 @@ fn do_rop(comp: &CF, op: ROp) -> Vec<String> {
         ROp::ReadRoot => comp.read_root_storage().take(ops::WALK_LIMIT).map(|e| entry_str(&e)).collect(),
         ROp::Walk => comp.walk().take(ops::WALK_LIMIT).map(|e| entry_str(&e)).collect(),
         ROp::WalkStorage => match comp.walk_storage("/d") {
+            Ok(it) => it.take(ops::WALK_LIMIT).map(|e| entry_str(&e)).collect(),
+            Err(e) => vec![format!("Err {}", e)],
+        },
+        ROp::WalkDeep => match comp.walk_storage("/d/e") {
             Ok(it) => it.take(ops::WALK_LIMIT).map(|e| entry_str(&e)).collect(),
             Err(e) => vec![format!("Err {}", e)],
         },
